@@ -29,7 +29,17 @@ def tokenize(src):
     out = []
     pos = 0
     n = len(src)
+    raw_open = re.compile(r'b?r(#*)"')
     while pos < n:
+        mo = raw_open.match(src, pos)
+        if mo and (pos == 0 or not (src[pos - 1].isalnum() or src[pos - 1] == "_")):
+            close = '"' + mo.group(1)
+            end = src.find(close, mo.end())
+            if end < 0:
+                raise ValueError(f"unterminated raw string at {pos}")
+            out.append(Tok("rawstr", src[pos:end + len(close)], pos))
+            pos = end + len(close)
+            continue
         m = TOKEN_RE.match(src, pos)
         if not m:
             raise ValueError(f"cannot tokenize at {pos}: {src[pos:pos+30]!r}")
